@@ -25,6 +25,16 @@ def shapes_for(sem: Sem, tier: str) -> list[dict]:
                 if m is not None:
                     s["msg"] = m
                 out.append(s)
+        # both operands concrete (the handlers' concrete fast paths): boundary pairs incl. opposite signs
+        if sem.nops == 2:
+            M = (1 << 256) - 1
+            pairs = [(M, 0), (0, M), (1 << 255, 1), (1, 1 << 255), (5, 5), ((1 << 255) - 1, 1 << 255), (M, M - 1)] \
+                if sem.typ in ("uint256", "int256") else [(1, 0), (1, 1), (0, 1)]
+            for pr in pairs:
+                s = dict(conc="both", vals=pr)
+                if msgs[0] is not None:
+                    s["msg"] = msgs[0]
+                out.append(s)
         return out
     if sem.array:
         lens = [0, 1, 2] if tier == "quick" else [0, 1, 2, 3]
